@@ -247,6 +247,23 @@ func (r *nodeBasedBalancer) swapShard(
 	r.Info("propose to swap the shard", slog.Int64("shard", candidateShard.ShardID), slog.Any("from", fromNode), slog.Any("to", targetNodeID))
 	loadRatios.MoveShardToNode(candidateShard, fromNodeID, targetNodeID)
 	loadRatios.ReCalculateRatios()
+
+	// Keep the snapshot used in this round up to date: a later proposal for the same shard
+	// must see the ensemble that results from this one, or it could pick the same target again
+	newEnsemble := make([]model.Server, 0, len(candidateShard.Ensemble))
+	for _, member := range candidateShard.Ensemble {
+		if member.GetIdentifier() != fromNodeID {
+			newEnsemble = append(newEnsemble, member)
+		}
+	}
+	newEnsemble = append(newEnsemble, *targetNode)
+	for nodeIter := loadRatios.NodeIterator(); nodeIter.Next(); {
+		for shardIter := nodeIter.Value().ShardIterator(); shardIter.Next(); {
+			if shard := shardIter.Value(); shard.Namespace == candidateShard.Namespace && shard.ShardID == candidateShard.ShardID {
+				shard.Ensemble = newEnsemble
+			}
+		}
+	}
 	return true, nil
 }
 
